@@ -175,8 +175,8 @@ func (g *c15Gen) gen(fuel int) *ty {
 		return g.leaf()
 	}
 	// constructors: 0 slice, 1 tuple2, 2 tuple3, 3 arrow1, 4 arrow2, 5 unit-arg arrow, 6 unit-res arrow, 7 ext.Box, 8 ext.Pair, 9 G
-	cons := g.c.Choose(10)
-	arity := []int{1, 2, 3, 2, 3, 1, 1, 1, 2, 1}[cons]
+	cons := g.c.Choose(11)
+	arity := []int{1, 2, 3, 2, 3, 1, 1, 1, 2, 1, 3}[cons]
 	rest := fuel - 1
 	// split rest over the kids in every possible way
 	split := make([]int, arity)
@@ -204,6 +204,9 @@ func (g *c15Gen) gen(fuel int) *ty {
 		return &ty{kind: tyGen, name: "ext.Box", kids: kids}
 	case 8:
 		return &ty{kind: tyGen, name: "ext.Pair", kids: kids}
+	case 10:
+		// three type arguments (after seed C15i: the tail of a type argument list reversed - invisible with two)
+		return &ty{kind: tyGen, name: "ext.Tri", kids: kids}
 	}
 	return &ty{kind: tyGen, name: "G", kids: kids}
 }
@@ -313,6 +316,7 @@ import frt
 package_info ext =
   type Box<T>
   type Pair<K, V>
+  type Tri<A, B, C>
 
 package_info _ =
   let mk<T>: ()->T
@@ -418,7 +422,7 @@ func checkC15(c *core.Ctx) {
 	if err != nil {
 		panic(err)
 	}
-	c.Set("rule", "type expressions are enumerated by the choice-tree explorer: syntactic position (5), number of constructors k, constructor per node (slice, 2-/3-tuple, 1-/2-argument arrow, unit-argument arrow, unit-result arrow, ext.Box<T>, ext.Pair<K,V>, user generic G<T>), every split of k over the children, one optional redundant pair of parentheses at any node; leaves rotate over int string bool any float Rec T; distinct = distinct (position, type text); non-trivial = at least 2 constructors or a redundant parenthesis (precedence actually matters)")
+	c.Set("rule", "type expressions are enumerated by the choice-tree explorer: syntactic position (5), number of constructors k, constructor per node (slice, 2-/3-tuple, 1-/2-argument arrow, unit-argument arrow, unit-result arrow, ext.Box<T>, ext.Pair<K,V>, ext.Tri<A,B,C>, user generic G<T>), every split of k over the children, one optional redundant pair of parentheses at any node; leaves rotate over int string bool any float Rec T; distinct = distinct (position, type text); non-trivial = at least 2 constructors or a redundant parenthesis (precedence actually matters)")
 	c.Assumption("() only as the sole parameter or the result of a function type; tuples of 2 and 3; the Go type text is normalised through go/parser + go/types.ExprString on both sides")
 	if c.ReplayFile != "" {
 		c15Replay(c, fc, sc)
